@@ -56,3 +56,42 @@ def mag_dom(r: fb.Rng, zero_ok=True):
 
 def canon_geonum(P, r: fb.Rng, zero_ok=True, big=True):
     return P.add('GNewAngle', P.f(mag_dom(r, zero_ok)), canon_angle(P, r, big))
+
+def mag_pair(r: fb.Rng, zero_ok=True):
+    k = r.below(8)
+    m = mag_dom(r, False)
+    if k == 0: return m, m
+    if k == 1: return m, fb.nxt(m, r.choice([1, 2, 3, 8, -1, -3]))
+    if k == 2: return m, m * r.choice([1e16, 1e-16, 1e8, 1e-8])
+    if k == 3 and zero_ok: return (0.0, m) if r.chance(0.5) else (m, 0.0)
+    if k == 4: return float(r.below(9) + 1), float(r.below(9) + 1)
+    return m, mag_dom(r, zero_ok)
+
+def geo_pair(P, r: fb.Rng, zero_ok=True, big=True, rel=None):
+    """two geometric numbers whose angles stand in a chosen relation; returns (a, b, relation)"""
+    ma, mb = mag_pair(r, zero_ok)
+    rel = rel or r.choice(['same', 'opposite', 'near-par', 'near-opp', 'orth', 'orth-near', 'turns', 'any', 'any', 'any'])
+    ra = rem_class(r); ba = blade_class(r, big)
+    aa = angle_rem(P, ra, ba)
+    if rel == 'same':
+        ab = aa
+    elif rel == 'opposite':
+        ab = P.add(r.choice(['ANeg', 'ADual', 'AConj']), aa)
+    elif rel in ('near-par', 'near-opp'):
+        d = r.choice([1e-15, 2e-15, 1e-14, 1e-12, 1e-10, 2e-10, 1e-9, 1e-8, 1e-6, 3e-16]) * r.choice([1, -1])
+        rb = min(max(ra + d, 0.0), fb.Q - 2e-10)
+        if rb == ra: rb = min(ra + abs(d), fb.Q - 2e-10)
+        extra = r.choice([0, 4, 8, 4 * 250000]) + (2 if rel == 'near-opp' else 0)
+        if rel == 'near-opp' and r.chance(0.3): extra += 4     # blades differ by 6
+        ab = angle_rem(P, rb, ba + extra)
+    elif rel == 'orth':
+        ab = P.add('AAdd', 0, aa, P.add('ANew', P.f(float(r.choice([1, 3]))), P.f(2.0)))
+    elif rel == 'orth-near':
+        rb = min(max(fb.nxt(ra, r.choice([-2, -1, 1, 2])), 0.0), fb.Q - 2e-10)
+        ab = angle_rem(P, rb, ba + r.choice([1, 3, 5]))
+    elif rel == 'turns':
+        ab = P.add('AAdd', 0, aa, P.add('ANewBlade', P.u(4 * r.choice([1, 2, 250000, 2**19])), P.f(0.0), P.f(1.0)))
+    else:
+        ab = canon_angle(P, r, big)
+    a = P.add('GNewAngle', P.f(ma), aa); b = P.add('GNewAngle', P.f(mb), ab)
+    return a, b, rel
